@@ -107,9 +107,16 @@ func (l *Log) Events() []Ev {
 
 // Contention: some contender issued its call while another one was active
 // (between its call and its Unlock return / failure) — LockLog.overlaps.
-func Contention(evs []Ev) bool {
+func Contention(evs []Ev) bool { return ContentionExcept(evs, nil) }
+
+// ContentionExcept is Contention without the contenders in skip (contenders
+// that fail by themselves, e.g. called with a cancelled context).
+func ContentionExcept(evs []Ev, skip map[int]bool) bool {
 	active := map[int]bool{}
 	for _, e := range evs {
+		if skip[e.I] {
+			continue
+		}
 		switch e.Kind {
 		case "ECall":
 			if len(active) > 0 {
@@ -178,6 +185,11 @@ func ClassifyFail(op string, err error, panicked bool) string {
 	}
 	if errors.Is(err, concurrency.ErrSessionExpired) {
 		return "FExpired"
+	}
+	// the caller's own context was cancelled: the call's context is done, same
+	// class as its deadline having passed
+	if errors.Is(err, context.Canceled) || status.Code(err) == codes.Canceled {
+		return "FTimeout"
 	}
 	switch op {
 	case OpTry:
